@@ -265,11 +265,26 @@ func ChildMain(sims map[string]SimFunc) bool {
 				r := RunOne(f, ReplayTape(v), sp.Tier, false)
 				return r.Bug == "" && r.Has(sig) != nil
 			}, sp.MaxShrink)
-			r := RunOne(f, ReplayTape(min), sp.Tier, true)
-			rv := r.Has(sig)
+			// the minimised tape must reproduce; a violation that depends on a
+			// choice the simulator does not own (Go's select among ready cases)
+			// may need several executions, or only the original tape shows it
+			var r *Ctx
+			var rv *Violation
+			for _, tp := range [][]uint32{min, c.Rec} {
+				for try := 0; try < 6 && rv == nil; try++ {
+					r = RunOne(f, ReplayTape(tp), sp.Tier, true)
+					rv = r.Has(sig)
+				}
+				if rv != nil {
+					min = tp
+					break
+				}
+			}
 			if rv == nil {
-				out.Bug = fmt.Sprintf("run %d: minimised tape does not reproduce %s (nondeterministic simulation)", run, sig)
-				finish(2)
+				r, rv, min = c, viol, c.Rec
+				cp := *viol
+				cp.Detail += "\n(NOT reproduced in 12 re-executions of its tape: the outcome depends on a choice the simulator does not own)"
+				rv = &cp
 			}
 			seen[sig] = len(out.Found)
 			out.Found = append(out.Found, Found{Sig: sig, V: *rv, Seed: sp.Seed, Run: run, Sim: sp.Sim, Tier: sp.Tier, Race: sp.Race,
